@@ -225,8 +225,7 @@ class HamProblem:
             xp = self.x0.copy()
             xp[i] += 1e-6
             J.append((self.flow(xp, tt, rtol=1e-11) - base) / 1e-6)
-        J = np.stack(J, axis=2)
-        return float(max(1.0, max(np.linalg.norm(J[k], 2) for k in range(len(tt)))))
+        return ef.two_time_sensitivity(np.stack(J, axis=2))
 
     def key(self):
         return ["polyham", sorted((list(e), c) for e, c in self.ham.mons.items()), self.x0.tolist()]
@@ -815,24 +814,25 @@ def m5_cr3bp(ctx, n_cases):
             continue
         mu = mus[it % len(mus)]
         sysm = systems.setdefault(mu, System.from_mu(mu))
-        # wide orbit well away from both primaries (moderate sensitivity)
-        x0 = 1 - mu - float(rng.uniform(0.25, 0.4))
-        y0 = np.array([x0, float(rng.normal() * 0.03), float(rng.uniform(0.02, 0.08)), float(rng.normal() * 0.05),
-                       float(rng.uniform(0.9, 1.2) * np.sqrt((1 - mu) / abs(x0 + mu)) - abs(x0 + mu)), float(rng.normal() * 0.05)])
+        # inclined orbit around the larger primary, well inside the secondary's orbit (moderate sensitivity)
+        r0 = float(rng.uniform(0.3, 0.45))
+        x0 = -mu + r0
+        y0 = np.array([x0, float(rng.normal() * 0.02), float(rng.uniform(0.02, 0.08)), float(rng.normal() * 0.05),
+                       float(rng.uniform(0.9, 1.15) * np.sqrt((1 - mu) / r0) - r0), float(rng.normal() * 0.05)])
         tf = float(rng.uniform(3.5, 5.0))
-        tc = tf * np.arange(0, NCHK + 1) / NCHK
-        refc, stm = ref.flow_stm(y0, mu, tf, t_eval=tc)
-        r1 = np.min(np.hypot(np.hypot(refc[:, 0] + mu, refc[:, 1]), refc[:, 2]))
-        r2 = np.min(np.hypot(np.hypot(refc[:, 0] - 1 + mu, refc[:, 1]), refc[:, 2]))
-        if min(r1, r2) < 0.1:
+        tfine = np.linspace(0, tf, 2001)
+        rfine = ref.flow(y0, mu, tfine)
+        d1 = np.min(np.hypot(np.hypot(rfine[:, 0] + mu, rfine[:, 1]), rfine[:, 2]))
+        d2 = np.min(np.hypot(np.hypot(rfine[:, 0] - 1 + mu, rfine[:, 1]), rfine[:, 2]))
+        if min(d1, d2) < 0.15:
             ctx.skip("M5: reference trajectory approaches a primary")
             continue
-        kap = float(max(np.linalg.norm(M, 2) for M in stm))
-        ref12 = ref.flow(y0, mu, tc, rtol=1e-12, atol=1e-12)
-        acc = max(float(np.max(np.abs(ref12 - refc))), 1e-13)
-        scale = 1.0 + float(np.max(np.abs(refc)))
-        rate = float(np.max(np.linalg.norm(refc[:, 3:], axis=1) / np.minimum(
-            np.hypot(np.hypot(refc[:, 0] + mu, refc[:, 1]), refc[:, 2]), 1.0))) + 1.0
+        ts = np.linspace(0, tf, 41)
+        _, stm = ref.flow_stm(y0, mu, tf, t_eval=ts)
+        kap = ef.two_time_sensitivity(stm)
+        acc = max(float(np.max(np.abs(ref.flow(y0, mu, tfine[::50], rtol=1e-12, atol=1e-12) - rfine[::50]))), 1e-13)
+        scale = 1.0 + float(np.max(np.abs(rfine)))
+        rate = float(np.max(np.linalg.norm(rfine[:, 3:], axis=1) / np.hypot(np.hypot(rfine[:, 0] + mu, rfine[:, 1]), rfine[:, 2]))) + 1.0
         # ---- fixed: empirical order through the public entry point
         for p in (4, 6, 8):
             def run(tn):
@@ -854,8 +854,6 @@ def m5_cr3bp(ctx, n_cases):
         # ---- adaptive (rtol = atol = 1e-12 inside the library)
         from scipy.integrate import solve_ivp
         tol = 1e-12
-        tfine = np.linspace(0, tf, 2001)
-        rfine = ref.flow(y0, mu, tfine)
         for p in (5, 8):
             ys = solve_ivp(lambda t, y: ref.field(y, mu), (0.0, tf), y0, method="RK45" if p == 5 else "DOP853", rtol=tol, atol=tol,
                            dense_output=True)
@@ -899,7 +897,7 @@ def run(ctx):
     guarded(ctx, "interpose", env.count_calls)
     if ctx.mine(0):
         guarded(ctx, "M1", m1_tableaux, ctx)
-    guarded(ctx, "M2", m2_stepping, ctx, env, ctx.pick(24, 120))
+    guarded(ctx, "M2", m2_stepping, ctx, env, ctx.pick(40, 160))
 
     nrep = ctx.pick(1, 2 * ctx.nshards)
     tols = ctx.pick([1e-6, 1e-8, 1e-10], [1e-6, 1e-7, 1e-8, 1e-9, 1e-10, 1e-11, 1e-12])
